@@ -2232,3 +2232,15 @@ M("C13-global-bit-not-restored", "C13", F_TY,
   "    (*this) = other;\n    _flags |= old_flags;\n", "    (*this) = other;\n", expect="R13.7|merge_with|they-win|")
 M("C13-we-win-drops-other-global", "C13", F_TY,
   "    _flags |= (other._flags & F_global);\n", "", expect="R13.7|merge_with|we-win|")
+
+# ---- R07.16 (S9-C07: \0 split off the octal escapes)
+MUTANTS.append({"id": "C07-backslash-zero-is-a-simple-escape", "prop": "C07", "expect": "R07.16|scan_escape_sequence|octal-digits-share-one-arm", "benign": False, "edits": [
+    (F_PP, "  case 'b':\n    return '\\b';\n", "  case '0':\n    return '\\0';\n\n  case 'b':\n    return '\\b';\n"),
+    (F_PP, "  case '0':\n  case '1':\n  case '2':\n  case '3':\n  case '4':\n  case '5':\n  case '6':\n  case '7':\n    // Octal character.", "  case '1':\n  case '2':\n  case '3':\n  case '4':\n  case '5':\n  case '6':\n  case '7':\n    // Octal character.")]})
+M("C07-vertical-tab-escape-wrong", "C07", F_PP, "  case 'v':\n    return '\\v';\n", "  case 'v':\n    return '\\f';\n",
+  expect="R07.16|scan_escape_sequence|\\v|standard-value")
+
+# ---- R17.9 chdir clause (S9-C17: chdir inside the option loop)
+MUTANTS.append({"id": "C17-chdir-inside-the-option-loop", "prop": "C17", "expect": "R17.9|main|chdir|after-every-make_absolute", "benign": False, "edits": [
+    (F_IG, "      source_file_directory.make_absolute();\n      break;\n", "      source_file_directory.make_absolute();\n      if (!source_file_directory.chdir()) {\n        cerr << \"Could not change directory to \" << source_file_directory << \"\\n\";\n        exit(1);\n      }\n      break;\n"),
+    (F_IG, "  // If requested, change directory to the source-file directory.\n  if (source_file_directory != \"\") {\n    if (!source_file_directory.chdir()) {\n      cerr << \"Could not change directory to \" << source_file_directory << \"\\n\";\n      exit(1);\n    }\n  }\n", "")]})
